@@ -15,7 +15,9 @@ RULE = ("ss: 1-3 sibling streams; 0..64 KiB (boundary table) queued for a stream
         "step and after a quiescence of 1 h virtual time, FINs for unknown / finished ids; Stream::poll_shutdown "
         "followed by a bounded 1 h virtual wait at the peer's reader. lo (real time, bounded 2 s watch): SOCKS5 and "
         "HTTP CONNECT applications half-closing after n bytes, targets half-closing after n bytes, reverse direction "
-        "afterwards. Oracle: PipeRef with shutdown propagation expected + exact data / EOF / table-size checks; a "
+        "afterwards; a slow target (4 KiB receive buffer, does not read) while the application uploads 4-24 MiB, the "
+        "client session is closed once the upload left it, the target reads only afterwards and must receive every "
+        "byte and then EOF. Oracle: PipeRef with shutdown propagation expected + exact data / EOF / table-size checks; a "
         "missing EOF at one of the four listed call sites is reported as KNOWN-FINDING (by site), anything else "
         "(FIN overtaking data, FIN removing another id, leak after a received FIN, EOF before all data, reverse "
         "direction broken) is a VIOLATION. A bounded wait is not evidence of 'never'. Non-trivial = data queued "
@@ -128,6 +130,11 @@ def gen_cases(tier, seed):
                 for n_, m_ in ((1000, 300), (70000, 10)) if rep == 0 else ((r.randint(0, 200000), r.randint(1, 5000)),):
                     k += 1
                     cs.append(Case("lo%d" % k, "lo", [front, sc, n_, m_, 2000], "loopback-%s-%s" % (front, sc), True, model=False))
+    # a slow target: the upload is still queued in the server when the client session ends
+    slow = [("socks", 12 << 20, 300)] if tier == "quick" else \
+           [(f, r.choice([4, 8, 12, 16, 24]) << 20, r.choice([0, 100, 500, 2000])) for f in ("socks", "http") for _ in range(3)]
+    for i, (front, n_, m_) in enumerate(slow):
+        cs.append(Case("slow%d" % i, "lo", [front, "slow_target", n_ + r.randint(0, 9999), m_, 4000], "loopback-slow-target", True, model=False))
     return cs
 
 
@@ -136,6 +143,18 @@ def lo_oracle(c, ir):
     kv = dict(t.split("=", 1) for t in ir.split() if "=" in t)
     if kv.get("reply") != "ok" or kv.get("tgt_conn") != "1":
         return "loopback setup failed (reply=%s tgt_conn=%s): %s" % (kv.get("reply"), kv.get("tgt_conn"), ir[:120])
+    if sc == "slow_target":
+        # everything the application sent before the session was closed must reach the (slow) target, then EOF
+        if kv.get("closed") != "1":
+            return "loopback setup failed: the client session could not be closed: " + ir[:120]
+        exp = G.gen("c", 1, 0, n)
+        if kv.get("fwd") != "%d.%08x" % (len(exp), G.fnv(exp)):
+            got = (kv.get("fwd") or "0.").split(".")[0]
+            return ("upload truncated: the application sent %d bytes before its session was closed, the slow target "
+                    "received %s bytes%s" % (n, got, " and then end-of-stream" if kv.get("eof") == "1" else ""))
+        if kv.get("eof") != "1":
+            return "the target received all %d bytes but no end-of-stream within %s ms after the session ended" % (n, c.args[4])
+        return None
     src, back = ("c", "s") if sc == "app_eof" else ("s", "c")
     exp = G.gen(src, 1, 0, n)
     if kv.get("fwd") != "%d.%08x" % (len(exp), G.fnv(exp)):
